@@ -186,7 +186,7 @@ func (n *namer) genCmdBody(c *Cmd) {
 			id := d.NewID()
 			a := &PosArg{Field: fmt.Sprintf("A%d", id)}
 			if r.Bool() {
-				a.Name = fmt.Sprintf("arg%03d", id)
+				a.Name = fmt.Sprintf("arg%03d", id) + r.Pick([]string{"", "", "", "%", "%s", "%d%%"})
 			}
 			t := TypeSpec{K: KString}
 			if len(cfg.PosTypes) > 0 {
@@ -204,9 +204,12 @@ func (n *namer) genCmdBody(c *Cmd) {
 				a.NamedSlice = a.T.K == KString && r.Chance(cfg.PNamedRest, 100)
 				if r.Chance(cfg.PPosReq, 100) {
 					lo := r.Range(0, 3)
-					if r.Bool() {
+					switch r.Intn(5) {
+					case 0, 1:
 						a.Req = strconv.Itoa(lo)
-					} else {
+					case 2:
+						a.Req = fmt.Sprintf("%d-", lo) // no upper bound
+					default:
 						a.Req = fmt.Sprintf("%d-%d", lo, lo+r.Range(0, 2))
 					}
 				}
@@ -485,6 +488,9 @@ func (n *namer) genOpt(g *Grp, c *Cmd) *Opt {
 		if r.Chance(cfg.POptional, 100) && !t.IsFunc() && !t.IsMulti() {
 			o.Optional = true
 			nv := 1
+			if r.Chance(1, 4) {
+				nv = 0 // an optional argument without any optional-value: given bare, the option is reset to its zero value
+			}
 			if t.IsMulti() {
 				nv = r.Range(1, 2)
 			}
@@ -528,6 +534,9 @@ func (n *namer) genOpt(g *Grp, c *Cmd) *Opt {
 		}
 	}
 	o.Required = r.Chance(cfg.PRequired, 100)
+	if o.Optional && len(o.OptionalValues) == 0 {
+		o.Required = false // (given bare it would not count as given)
+	}
 	if r.Chance(1, 4) {
 		o.TruthText = r.Pick([]string{"yes", "1", "False", "NO", "TRUE", "x", "No", "00"})
 	}
